@@ -863,7 +863,7 @@ fn main() {
     let selftest: u8 = std::env::var("VERIF_SELFTEST").ok().and_then(|s| s.parse().ok()).unwrap_or(0);
     let env = Env { assets, anchored: anch, selftest };
     let n_assets = env.assets.list.len();
-    let threads = 8;
+    let threads = if run.quick() { 8 } else { 12 };
 
     // ---- (a) pairwise covering array over the configuration axes, random content -------------------
     // axes: asset, alg, hash alg (absent/256/384/512), compress, claim v1, embed mode, thumbnails, intent
